@@ -200,7 +200,7 @@ fn check_input(h: &History, nodes: &[usize], deviations: usize, lean: bool, t: &
         }
     }
     // single set and identical sets return the input
-    for copies in 1..=3usize {
+    for copies in 1..=(if lean { 0 } else { 3usize }) {
         let s = vec![inp.sets[k - 1].clone(); copies];
         let c = vec![inp.chains[k - 1].clone(); copies];
         let one = Input { h, sets: s, chains: c };
